@@ -2,7 +2,7 @@
 Same reply-ownership oracle as C01, with KeyboardInterrupt / SystemExit / a BaseException subclass raised from every
 socket call of every operation, followed by further calls; plus the pool's checked-out count after the aborted call."""
 from c01 import client_socks, has_reply, mk, run_sequence
-from common import Ctx, import_repo
+from common import FakeClock, Ctx, import_repo
 from faultrun import BASE_KINDS, OPS
 
 
@@ -98,12 +98,9 @@ def main(argv):
     from fakesock import mk_exc
     from faultrun import Scripted
 
-    class FakeTime:
+    class FakeTime(FakeClock):
         now = 1_000_000.0
-
-        @classmethod
-        def time(cls):
-            return cls.now
+    FakeTime = FakeTime(lambda: FakeTime.now)
     real_time = pool_mod.time
     pool_mod.time = FakeTime
     try:
